@@ -690,3 +690,363 @@ Proof.
   rewrite (run_steps _ _ _ _ _ _ (Hn [stop_byte] [])).
   reflexivity.
 Qed.
+
+(* ================= second sentence: constructed opcodes ================= *)
+Definition reads_back (c : cclass) (arg : pv) (bs : list byte) : Prop :=
+  exists g, genops1 bs = COk ((c_op c, g), []) /\ garg_matches arg g = true.
+
+Ltac open_class H := vm_compute in H; inversion H; subst; clear H.
+
+Lemma COk_inj {A} (a b : A) : COk a = COk b -> a = b.
+Proof. intros [=]; auto. Qed.
+
+Lemma genops1_nil_rest bs r : genops1 (bs ++ []) = r -> genops1 bs = r.
+Proof. rewrite app_nil_r. auto. Qed.
+
+(* --- classes without an argument: any constructor argument is ignored --- *)
+Definition plain_noarg (c : cclass) : bool :=
+  class_argless c && String.eqb (c_encode c) "Opcode.encode" && String.eqb (c_body c) "Opcode.encode_body".
+
+Definition noarg_reads_back (c : cclass) : bool :=
+  match genops1 [class_code c] with
+  | COk ((n, GNone), []) => String.eqb n (c_op c)
+  | _ => false
+  end.
+
+Lemma noarg_encode c arg : plain_noarg c = true -> encode c arg = COk [class_code c].
+Proof.
+  unfold plain_noarg. intros H. apply andb_true_iff in H as [H H3]. apply andb_true_iff in H as [H1 H2].
+  apply String.eqb_eq in H2, H3. unfold encode, encode_body. rewrite H2, H3. cbn. rewrite H1. reflexivity.
+Qed.
+
+Lemma noarg_table : forallb (fun c => implb (plain_noarg c) (noarg_reads_back c)) opcode_classes = true.
+Proof. vm_compute. reflexivity. Qed.
+
+Lemma noarg_decodes_back c arg :
+  In c opcode_classes -> plain_noarg c = true ->
+  encode c arg = COk [class_code c] /\ genops1 [class_code c] = COk ((c_op c, GNone), []).
+Proof.
+  intros Hin Hp. split; [apply noarg_encode; assumption |].
+  pose proof noarg_table as T. rewrite forallb_forall in T. specialize (T c Hin). rewrite Hp in T.
+  cbn in T. unfold noarg_reads_back in T.
+  destruct (genops1 [class_code c]) as [[[n g] r]|]; try discriminate.
+  destruct g; try discriminate. destruct r; try discriminate. apply String.eqb_eq in T. subst. reflexivity.
+Qed.
+
+(* --- classes that refuse: an argument-carrying opcode without encode_body, and Inst --- *)
+Definition no_encoder (c : cclass) : bool :=
+  (negb (class_argless c) && String.eqb (c_encode c) "Opcode.encode" && String.eqb (c_body c) "Opcode.encode_body")
+  || String.eqb (c_encode c) "Inst.encode".
+
+Lemma no_encoder_refuses c arg : no_encoder c = true -> exists e, encode c arg = CErr e.
+Proof.
+  unfold no_encoder. intros H. apply orb_true_iff in H as [H|H].
+  - apply andb_true_iff in H as [H H3]. apply andb_true_iff in H as [H1 H2].
+    apply String.eqb_eq in H2, H3. apply negb_true_iff in H1.
+    unfold encode, encode_body. rewrite H2, H3. cbn. rewrite H1. cbn. eauto.
+  - apply String.eqb_eq in H. unfold encode. rewrite H. cbn. eauto.
+Qed.
+
+(* --- fixed-width integers --- *)
+Lemma decode_long_signed w z :
+  (0 < w)%nat -> - 2 ^ (8 * Z.of_nat w - 1) <= z < 2 ^ (8 * Z.of_nat w - 1) ->
+  decode_long (le_bytes w (Z.to_N (z mod 2 ^ (8 * Z.of_nat w)))) = z.
+Proof.
+  intros Hw Hz. unfold decode_long. rewrite le_bytes_length.
+  assert (P : 2 ^ (8 * Z.of_nat w) = 2 * 2 ^ (8 * Z.of_nat w - 1)).
+  { rewrite <- Z.pow_succ_r by lia. f_equal. lia. }
+  assert (Pp : 0 < 2 ^ (8 * Z.of_nat w - 1)) by (apply Z.pow_pos_nonneg; lia).
+  assert (M : 0 <= z mod 2 ^ (8 * Z.of_nat w) < 2 ^ (8 * Z.of_nat w)) by (apply Z.mod_pos_bound; lia).
+  rewrite le_N_le_bytes_small.
+  2:{ apply N2Z.inj_lt. rewrite Z2N.id by lia. rewrite N2Z.inj_pow. 
+      replace (Z.of_N 256) with (2 ^ 8) by reflexivity. rewrite <- Z.pow_mul_r by lia.
+      rewrite nat_N_Z. lia. }
+  rewrite Z2N.id by lia.
+  destruct (le_bytes w (Z.to_N (z mod 2 ^ (8 * Z.of_nat w)))) eqn:E.
+  { pose proof (le_bytes_length w (Z.to_N (z mod 2 ^ (8 * Z.of_nat w)))) as L. rewrite E in L. simpl in L. lia. }
+  clear E.
+  destruct (Z_lt_ge_dec z 0).
+  - replace (z mod 2 ^ (8 * Z.of_nat w)) with (z + 2 ^ (8 * Z.of_nat w)).
+    2:{ symmetry. rewrite <- (Z_mod_plus_full z 1). rewrite Z.mul_1_l. apply Z.mod_small. lia. }
+    destruct (z + 2 ^ (8 * Z.of_nat w) <? 2 ^ (8 * Z.of_nat w - 1)) eqn:C; [apply Z.ltb_lt in C | ]; lia.
+  - rewrite Z.mod_small by lia.
+    destruct (z <? 2 ^ (8 * Z.of_nat w - 1)) eqn:C; [| apply Z.ltb_ge in C]; lia.
+Qed.
+
+Lemma tok_int4 bs rest : List.length bs = 4%nat ->
+  genops1 (x4a :: bs ++ rest) = COk (("BININT"%string, GInt (decode_long bs)), rest).
+Proof. intros H. tok. rewrite read_fixed_app by assumption. reflexivity. Qed.
+
+Lemma binint1_back c z bs : find_class "BinInt1" = Some c ->
+  encode c (PInt z) = COk bs -> reads_back c (PInt z) bs.
+Proof.
+  intros H E. open_class H. cbn -[le_bytes] in E.
+  destruct ((0 <=? z) && (z <? 256)) eqn:R; cbn -[le_bytes] in E; [| discriminate]. apply COk_inj in E; subst bs.
+  andb_split R. exists (GInt z). split; [| cbn; apply Z.eqb_refl].
+  apply genops1_nil_rest.
+  rewrite <- app_comm_cons, tok_uint1 by apply le_bytes_length.
+  rewrite le_N_le_bytes_small by (cbn; lia). rewrite Z2N.id by lia. reflexivity.
+Qed.
+
+Lemma binint2_back c z bs : find_class "BinInt2" = Some c ->
+  encode c (PInt z) = COk bs -> reads_back c (PInt z) bs.
+Proof.
+  intros H E. open_class H. cbn -[le_bytes] in E.
+  destruct ((0 <=? z) && (z <? 65536)) eqn:R; cbn -[le_bytes] in E; [| discriminate]. apply COk_inj in E; subst bs.
+  andb_split R. exists (GInt z). split; [| cbn; apply Z.eqb_refl].
+  apply genops1_nil_rest. rewrite <- app_comm_cons, tok_uint2 by apply le_bytes_length.
+  rewrite le_N_le_bytes_small by (cbn; lia). rewrite Z2N.id by lia. reflexivity.
+Qed.
+
+Lemma binint_back c z bs : find_class "BinInt" = Some c ->
+  encode c (PInt z) = COk bs -> reads_back c (PInt z) bs.
+Proof.
+  intros H E. open_class H. cbn -[Z.pow Z.modulo le_bytes] in E.
+  match type of E with context[if ?b then _ else _] => destruct b eqn:R end; cbn -[Z.pow Z.modulo le_bytes] in E; [| discriminate].
+  apply COk_inj in E; subst bs. andb_split R.
+  exists (GInt z). split; [| cbn; apply Z.eqb_refl].
+  apply genops1_nil_rest. rewrite <- app_comm_cons, tok_int4 by apply le_bytes_length.
+  f_equal. f_equal. f_equal. f_equal.
+  apply (decode_long_signed 4 z); [lia | cbn in *; lia].
+Qed.
+
+(* --- decimal text: INT, LONG, PUT, GET --- *)
+Lemma tok_line_int code name z rest row :
+  lookup code = Some row -> row_name row = name ->
+  (row_reader row = "read_decimalnl_short" \/ row_reader row = "read_decimalnl_long")%string ->
+  genops1 (code :: (dec_bytes z ++ [nl]) ++ rest) = COk ((name, GInt z), rest).
+Proof.
+  intros Hl Hn Hr. rewrite (genops1_unfold _ _ _ Hl), Hn.
+  rewrite <- app_assoc. change ([nl] ++ rest) with (nl :: rest).
+  destruct Hr as [-> | ->]; cbn -[read_line parse_dec dec_bytes];
+    rewrite read_line_app by apply dec_no_nl; cbn [cbind fst snd].
+  - rewrite dec_not_00, dec_not_01. unfold read_int_text. rewrite dec_roundtrip. reflexivity.
+  - assert (L : match List.rev (dec_bytes z) with
+                | b :: r => if Byte.eqb b x4c then List.rev r else dec_bytes z
+                | [] => dec_bytes z end = dec_bytes z).
+    { destruct (List.rev (dec_bytes z)) as [|b r] eqn:E; auto.
+      destruct (Byte.eqb b x4c) eqn:Eb; auto. exfalso.
+      apply Byte.byte_dec_bl in Eb. subst b.
+      assert (Hin : In x4c (dec_bytes z)) by (apply in_rev; rewrite E; left; reflexivity).
+      revert Hin. unfold dec_bytes, bytes_of_str, z_to_string. rewrite list_byte_of_string_map, in_map_iff.
+      intros [a [Ha Hin]].
+      assert (D : Forall (fun a => a <> "L"%char) (list_ascii_of_string (NilZero.string_of_int (Z.to_int z)))).
+      { assert (U : forall d, Forall (fun a => a <> "L"%char) (list_ascii_of_string (NilEmpty.string_of_uint d)))
+          by (induction d; simpl; constructor; auto; discriminate).
+        assert (U0 : forall u, Forall (fun a => a <> "L"%char) (list_ascii_of_string (NilZero.string_of_uint u))).
+        { intros u. destruct u; try apply U. simpl. constructor; [discriminate | constructor]. }
+        destruct (Z.to_int z); simpl; [apply U0 | constructor; [discriminate | apply U0]]. }
+      rewrite Forall_forall in D. apply (D a Hin).
+      rewrite <- (ascii_of_byte_of_ascii a), Ha. reflexivity. }
+    rewrite L. unfold read_int_text. rewrite dec_roundtrip. reflexivity.
+Qed.
+
+Lemma decimal_back n c z bs :
+  In n ["Int"; "Long"; "Put"; "Get"]%string -> find_class n = Some c ->
+  encode c (PInt z) = COk bs -> reads_back c (PInt z) bs.
+Proof.
+  intros Hn H E. exists (GInt z). split; [| cbn; apply Z.eqb_refl].
+  simpl in Hn. destruct Hn as [<-|[<-|[<-|[<-|[]]]]]; open_class H; cbn -[dec_bytes] in E;
+    inversion E; subst; clear E; apply genops1_nil_rest; rewrite <- app_comm_cons;
+    eapply tok_line_int; try (vm_compute; reflexivity); auto.
+Qed.
+
+(* Get.create(n) keeps b"<n>\n" as its argument *)
+Lemma get_create_back c z bs : find_class "Get" = Some c ->
+  encode c (PBytes (dec_bytes z ++ [nl])) = COk bs -> reads_back c (PBytes (dec_bytes z ++ [nl])) bs.
+Proof.
+  intros H E. open_class H.
+  assert (S1 : strip_nl (dec_bytes z ++ [nl]) = dec_bytes z).
+  { unfold strip_nl. rewrite rev_app_distr. cbn. rewrite rev_involutive. reflexivity. }
+  cbn -[dec_bytes strip_nl parse_dec] in E. rewrite S1, dec_roundtrip in E. cbn -[dec_bytes] in E.
+  apply COk_inj in E; subst bs.
+  exists (GInt z). split.
+  - apply genops1_nil_rest; rewrite <- app_comm_cons.
+    eapply tok_line_int; try (vm_compute; reflexivity); auto.
+  - cbn -[dec_bytes strip_nl parse_dec]. rewrite S1, dec_roundtrip, Z.eqb_refl, bytes_eqb_refl. reflexivity.
+Qed.
+
+(* --- length-prefixed text and bytes --- *)
+Ltac dyn_back TOK G :=
+  match goal with E : encode _ _ = COk _ |- _ =>
+    cbn -[le_bytes] in E; unfold in_range in E; cbn [c_min c_max] in E;
+    match type of E with context[negb ?b] => destruct b eqn:?R end; cbn -[le_bytes] in E; [| discriminate];
+    match type of E with context[if ?b then COk (le_bytes _ _) else _] => destruct b eqn:?R2 end;
+    cbn -[le_bytes] in E; [| discriminate];
+    apply COk_inj in E; subst
+  end;
+  repeat match goal with H : _ && _ = true |- _ => apply andb_true_iff in H; destruct H end;
+  eexists; split;
+  [ apply genops1_nil_rest; rewrite <- app_comm_cons, <- app_assoc; rewrite TOK;
+    [ reflexivity
+    | apply le_bytes_length
+    | rewrite le_N_le_bytes_small, blen_N; [reflexivity | rewrite blen_N; unfold blen in *; cbn; lia]
+    | unfold maxsize, ssize_max, blen in *; lia ]
+  | cbn; apply bytes_eqb_refl ].
+
+Lemma text_back n c s a bs :
+  In n ["ShortBinUnicode"; "BinUnicode"; "BinUnicode8"]%string -> find_class n = Some c ->
+  (a = PStr s \/ a = PBytes s) -> blen s <= ssize_max ->
+  encode c a = COk bs -> reads_back c a bs.
+Proof.
+  intros Hn H Ha Hs E. simpl in Hn.
+  destruct Hn as [<-|[<-|[<-|[]]]]; open_class H; destruct Ha as [-> | ->].
+  - dyn_back tok_u1 GText. - dyn_back tok_u1 GText.
+  - dyn_back tok_u4 GText. - dyn_back tok_u4 GText.
+  - dyn_back tok_u8 GText. - dyn_back tok_u8 GText.
+Qed.
+
+Lemma bytes_back n c s bs :
+  In n ["ShortBinBytes"; "BinBytes"; "BinBytes8"]%string -> find_class n = Some c ->
+  blen s <= ssize_max ->
+  encode c (PBytes s) = COk bs -> reads_back c (PBytes s) bs.
+Proof.
+  intros Hn H Hs E. simpl in Hn.
+  destruct Hn as [<-|[<-|[<-|[]]]]; open_class H.
+  - dyn_back tok_b1 GBytes. - dyn_back tok_b4 GBytes. - dyn_back tok_b8 GBytes.
+Qed.
+
+(* --- BINFLOAT (when the live class has an encoder) --- *)
+Lemma float_back c x bs : find_class "BinFloat" = Some c -> (x < 2 ^ 64)%N ->
+  encode c (PFloat x) = COk bs -> reads_back c (PFloat x) bs.
+Proof.
+  intros H Hx E. open_class H. cbn -[le_bytes] in E.
+  first [ discriminate
+        | apply COk_inj in E; subst; exists (GFloat x); split; [| cbn; apply N.eqb_refl];
+          apply genops1_nil_rest; rewrite <- app_comm_cons, tok_float8 by (rewrite rev_length; apply le_bytes_length);
+          rewrite be_N_rev_le by (cbn; lia); reflexivity ].
+Qed.
+
+(* --- PROTO --- *)
+Lemma tok_proto bs rest : List.length bs = 1%nat ->
+  genops1 (x80 :: bs ++ rest) = COk (("PROTO"%string, GInt (Z.of_N (le_N bs))), rest).
+Proof. intros H. tok. rewrite read_fixed_app by assumption. reflexivity. Qed.
+
+Lemma proto_back c z bs : find_class "Proto" = Some c ->
+  encode c (PInt z) = COk bs -> reads_back c (PInt z) bs.
+Proof.
+  intros H E. open_class H. cbn in E.
+  destruct ((0 <=? z) && (z <? 256)) eqn:R; cbn in E; [| discriminate]. apply COk_inj in E; subst.
+  andb_split R. exists (GInt z). split; [| cbn; apply Z.eqb_refl].
+  change [x80; byte_of_Z z] with (x80 :: [byte_of_Z z] ++ []). rewrite tok_proto by reflexivity.
+  cbn [le_N]. unfold byte_of_Z. rewrite to_N_byte_of_N by lia. rewrite N.mul_0_r, N.add_0_r, Z2N.id by lia. reflexivity.
+Qed.
+
+(* --- UNICODE on text that needs no escaping --- *)
+Definition safe_byte (b : byte) : bool :=
+  let n := Byte.to_N b in ((32 <=? n) && (n <=? 127) && negb (n =? 92))%N.
+
+Lemma raw_escape_safe s : forallb safe_byte s = true -> flat_map raw_escape_byte s = s.
+Proof.
+  induction s; simpl; intros H; auto. apply andb_true_iff in H as [H1 H2]. rewrite IHs by assumption.
+  unfold safe_byte in H1. apply andb_true_iff in H1 as [H1 H3]. apply andb_true_iff in H1 as [H0 H1].
+  apply N.leb_le in H0, H1. unfold raw_escape_byte.
+  replace ((32 <=? to_N a) && (to_N a <=? 128))%N with true by (symmetry; apply andb_true_iff; split; apply N.leb_le; lia).
+  replace (to_N a =? 128)%N with false by (symmetry; apply N.eqb_neq; lia). reflexivity.
+Qed.
+
+Lemma safe_not_nl s : forallb safe_byte s = true -> Forall not_nl s.
+Proof.
+  induction s; simpl; intros H; constructor.
+  - apply andb_true_iff in H as [H _]. unfold safe_byte in H. intros ->. vm_compute in H. discriminate.
+  - apply IHs. apply andb_true_iff in H as [_ H]. assumption.
+Qed.
+
+Lemma raw_unescape_safe s : forall fuel, forallb safe_byte s = true -> (List.length s < fuel)%nat ->
+  raw_unescape fuel s false = COk s.
+Proof.
+  induction s; intros fuel H L; destruct fuel; simpl in *; try lia; auto.
+  apply andb_true_iff in H as [H1 H2].
+  assert (Hb : Byte.eqb a x5c = false).
+  { destruct (Byte.eqb a x5c) eqn:E; auto. apply Byte.byte_dec_bl in E. subst a. vm_compute in H1. discriminate. }
+  rewrite Hb. rewrite IHs by (auto; lia). cbn.
+  unfold safe_byte in H1. apply andb_true_iff in H1 as [H1 _]. apply andb_true_iff in H1 as [_ H1].
+  apply N.leb_le in H1. unfold utf8_cp.
+  replace (to_N a <? 128)%N with true by (symmetry; apply N.ltb_lt; lia).
+  rewrite byte_of_N_to_N. reflexivity.
+Qed.
+
+Lemma unicode_safe_back c s bs : find_class "Unicode" = Some c -> forallb safe_byte s = true ->
+  encode c (PBytes s) = COk bs -> reads_back c (PBytes s) bs.
+Proof.
+  intros H Hs E. open_class H. cbn -[raw_unicode_escape] in E. apply COk_inj in E; subst.
+  exists (GText s). split; [| cbn; apply bytes_eqb_refl].
+  unfold raw_unicode_escape. rewrite raw_escape_safe by assumption.
+  erewrite genops1_unfold by (vm_compute; reflexivity).
+  cbn -[read_line raw_unescape].
+  rewrite read_line_app by (apply safe_not_nl; assumption). cbn [cbind fst snd].
+  rewrite raw_unescape_safe by (auto; lia). reflexivity.
+Qed.
+
+(* --- the classes whose encoder is wrong: witnesses --- *)
+Definition reads_backb (n : string) (a : pv) : bool :=
+  match find_class n with
+  | None => false
+  | Some c => match encode c a with
+              | CErr _ => true          (* refusing is allowed *)
+              | COk bs => match genops1 bs with
+                          | COk ((nm, g), []) => String.eqb nm (c_op c) && garg_matches a g
+                          | _ => false
+                          end
+              end
+  end.
+
+(* every Opcode subclass of the live module falls in exactly one of these groups *)
+Definition sound_names : list string :=
+  ["Proto"; "Put"; "Get"; "ShortBinUnicode"; "BinUnicode"; "BinUnicode8"; "Unicode"; "BinInt1"; "BinInt2"; "BinInt";
+   "BinFloat"; "ShortBinBytes"; "BinBytes"; "BinBytes8"; "Int"; "Long"]%string.
+Definition unsound_names : list string := ["String"; "ShortBinString"; "BinString"; "Long1"; "Long4"]%string.
+Definition differential_only_names : list string := ["Global"]%string.
+
+Definition classify (c : cclass) : string :=
+  if plain_noarg c then "noarg"
+  else if no_encoder c then "refuses"
+  else if mem_str (c_cls c) sound_names then "sound"
+  else if mem_str (c_cls c) unsound_names then "unsound"
+  else if mem_str (c_cls c) differential_only_names then "differential"
+  else "unclassified"%string.
+
+Lemma all_classified : forallb (fun c => negb (String.eqb (classify c) "unclassified")) opcode_classes = true.
+Proof. vm_compute. reflexivity. Qed.
+
+(* the argument has the type the opcode carries (and, for UNICODE, needs no escaping) *)
+Definition type_appropriate (n : string) (a : pv) : Prop :=
+  (In n ["BinInt1"; "BinInt2"; "BinInt"; "Int"; "Long"; "Put"; "Get"; "Proto"]%string /\ exists z, a = PInt z)
+  \/ (n = "Get"%string /\ exists z, a = PBytes (dec_bytes z ++ [nl]))
+  \/ (In n ["ShortBinUnicode"; "BinUnicode"; "BinUnicode8"]%string
+      /\ exists s, (a = PStr s \/ a = PBytes s) /\ blen s <= ssize_max)
+  \/ (In n ["ShortBinBytes"; "BinBytes"; "BinBytes8"]%string /\ exists s, a = PBytes s /\ blen s <= ssize_max)
+  \/ (n = "BinFloat"%string /\ exists x, a = PFloat x /\ (x < 2 ^ 64)%N)
+  \/ (n = "Unicode"%string /\ exists s, a = PBytes s /\ forallb safe_byte s = true).
+
+Theorem opcode_decodes_back n c a bs :
+  find_class n = Some c -> type_appropriate n a -> encode c a = COk bs -> reads_back c a bs.
+Proof.
+  intros H T E. destruct T as [[Hn [z ->]]|[[-> [z ->]]|[[Hn [s [Ha Hs]]]|[[Hn [s [-> Hs]]]|[[-> [x [-> Hx]]]|[-> [s [-> Hs]]]]]]]].
+  - simpl in Hn. destruct Hn as [<-|[<-|[<-|[<-|[<-|[<-|[<-|[<-|[]]]]]]]]].
+    + eapply binint1_back; eauto.
+    + eapply binint2_back; eauto.
+    + eapply binint_back; eauto.
+    + eapply (decimal_back "Int"); simpl; eauto.
+    + eapply (decimal_back "Long"); simpl; eauto.
+    + eapply (decimal_back "Put"); simpl; eauto 6.
+    + eapply (decimal_back "Get"); simpl; eauto 6.
+    + eapply proto_back; eauto.
+  - eapply get_create_back; eauto.
+  - eapply text_back; eauto.
+  - eapply bytes_back; eauto.
+  - eapply float_back; eauto.
+  - eapply unicode_safe_back; eauto.
+Qed.
+
+Lemma long_never_chosen z c a :
+  const_new (PInt z) = COk (c, a) ->
+  c_cls c <> "Long1"%string /\ c_cls c <> "Long4"%string /\ c_cls c <> "BinInt"%string.
+Proof.
+  rewrite const_new_rows. unfold const_rows. cbn. unfold in_range; cbn [c_min c_max].
+  destruct ((0 <=? z) && (z <=? 255)); [intros [= <- _]; cbn; repeat split; discriminate |].
+  destruct ((0 <=? z) && (z <=? 65535)); [intros [= <- _]; cbn; repeat split; discriminate |].
+  destruct ((2147483648 <=? z) && (z <=? 2147483647)) eqn:E3; [andb_split E3; lia |].
+  destruct ((128 <=? z) && (z <=? 127)) eqn:E4; [andb_split E4; lia |].
+  intros [= <- _]; cbn; repeat split; discriminate.
+Qed.
